@@ -33,10 +33,15 @@ MENTIONS = {
     '[!m=2]':    {'name': 'm', 'value': '2', 'vt': 'raw', 'implied': True},
     '[for=f]':   {'name': 'for', 'value': 'f', 'vt': 'raw'},
     '[onClick=h]': {'name': 'onClick', 'value': 'h', 'vt': 'raw'},
+    '[id]':      {'name': 'id', 'value': None, 'vt': 'raw'},   # (a bare `#` would fuse with a following `#i` into `##i`)
+    '[n=${1:t}]': {'name': 'n', 'value': 't', 'vt': 'raw'},   # a field: the default output.field prints its placeholder
     '[n m]':     None,   # two mentions in one set, expanded below
+    '[n=v n]':   None,
+    '[n n=v]':   None,
 }
 EXHAUSTIVE_KINDS = ['#i', '.c', '.d', '[n=v]', '[n="v w"]', '[n]', '[n.]', '[!n]', '[n={e}]', '[m=1]', '[n=""]', '#j']
-EXTRA_KINDS = ["[n='x']", '[m]', '[class=k]', '[id=z]', '[!m=2]', '[for=f]', '[onClick=h]']
+EXTRA_KINDS = ["[n='x']", '[m]', '[class=k]', '[id=z]', '[!m=2]', '[for=f]', '[onClick=h]', '[id]', '[n=${1:t}]']
+SET_KINDS = ['[n m]', '[n=v n]', '[n n=v]']          # several mentions inside one attribute set
 
 DROPPED = 'DROPPED'
 
@@ -86,13 +91,9 @@ def spec_attrs(mentions, syntax, options):
         # "for any other repeated attribute the last value wins (the first one under output.reverseAttributes)"
         seq = ms if reverse else ms[::-1]
         winner = seq[0]
+        # the winning *mention* decides, also when it carries no value ("the last value wins" + "a name without value
+        # gets an empty value": `[n=v][n]` is n=""), cf. notes
         value_cands = [(winner['value'], winner['vt'])]
-        if winner['value'] is None:
-            # silent: does a later mention *without* value erase an earlier value?  accept both readings
-            for m in seq:
-                if m['value'] is not None:
-                    value_cands.append((m['value'], m['vt']))
-                    break
         is_listed = name.lower() in listed
         b_all = is_listed or all(m.get('boolean') for m in ms)
         b_any = is_listed or any(m.get('boolean') for m in ms)
@@ -172,6 +173,12 @@ def _mentions_of(kinds):
         if k == '[n m]':
             ms.append(MENTIONS['[n]'])
             ms.append(MENTIONS['[m]'])
+        elif k == '[n=v n]':
+            ms.append(MENTIONS['[n=v]'])
+            ms.append(MENTIONS['[n]'])
+        elif k == '[n n=v]':
+            ms.append(MENTIONS['[n]'])
+            ms.append(MENTIONS['[n=v]'])
         else:
             ms.append(MENTIONS[k])
     return ms
@@ -299,15 +306,17 @@ def seq_cases(kinds, maxlen, syntaxes, option_sets, full_upto=None, per_seq=8):
                 yield (list(seq), syntaxes[si], option_sets[oi], (n + si + oi) % 3 == 0)
 
 
-def multi_cases_exhaustive(kinds, syntaxes, option_sets):
+def multi_cases_exhaustive(kinds, syntaxes, option_sets, all_syntaxes=True):
     pool = [[]] + [[k] for k in kinds]
+    k = 0
     for a in pool:
         for b in pool:
             for c in pool:
                 if not (a or b or c):
                     continue
-                for syn in syntaxes:
-                    for o in option_sets:
+                k += 1
+                for oi, o in enumerate(option_sets):
+                    for syn in (syntaxes if all_syntaxes else [syntaxes[(k + oi) % len(syntaxes)]]):
                         yield ([['div', a, 1], ['p', b, 1], ['em', c, 1]], syn, o)
 
 
@@ -343,14 +352,14 @@ def run(tier, seed):
     c1.done()
 
     c2 = Clause('attr-options-exhaustive', 'B',
-                'all sequences of mentions from %r, full cross product of the option axes' % (EXHAUSTIVE_KINDS + EXTRA_KINDS + ['[n m]'],),
+                'all sequences of mentions from %r, full cross product of the option axes' % (EXHAUSTIVE_KINDS + EXTRA_KINDS + SET_KINDS,),
                 'sequence length <= %d, syntaxes %r, all %d combinations of %s' % (
                     2, SYNTAXES, len(allsets), [(k, v) for k, v in OPTION_AXES]),
                 'a case is (mention sequence, syntax, option combination)', exhaustive=True)
-    kinds2 = EXHAUSTIVE_KINDS + EXTRA_KINDS + ['[n m]']
-    sets2 = allsets if not quick else allsets[::5]
+    kinds2 = EXHAUSTIVE_KINDS + EXTRA_KINDS + SET_KINDS
+    sets2 = allsets if not quick else allsets[::7]
     if quick:
-        c2.bound += ' -- quick tier: every fifth option combination (%d)' % len(sets2)
+        c2.bound += ' -- quick tier: every seventh option combination (%d)' % len(sets2)
         c2.exhaustive = False
     run_parallel_sorted(c2, 'bounded.c03', 'check_seq', seq_cases(kinds2, 2, SYNTAXES, sets2), chunk=2000)
     c2.done()
@@ -358,12 +367,13 @@ def run(tier, seed):
     c3 = Clause('attr-owner-element', 'B',
                 'div[A]>p[B]+em[C] with A, B, C each empty or one mention (exhaustive) plus seeded random abbreviations of 1-4 '
                 'elements (names incl. the implied one), 0-4 mentions each, repeat counts 1-2',
-                'exhaustive part: %d kinds, 3 elements, syntaxes %r x %d option rows; random part: %d cases' % (
-                    len(kinds2) - 1, SYNTAXES, 3 if quick else 8, 6000 if quick else 60000),
+                'exhaustive part: %d kinds, 3 elements, %s x %d option rows; random part: %d cases' % (
+                    len(kinds2), 'one syntax per case (rotating over %r)' % (SYNTAXES,) if quick else 'syntaxes %r' % (SYNTAXES,),
+                    3 if quick else 8, 6000 if quick else 60000),
                 'a case is (elements with their mentions, syntax, option row); every produced tag must carry exactly the '
                 'attributes written on it', exhaustive=False)
-    k3 = EXHAUSTIVE_KINDS + EXTRA_KINDS
-    cases3 = itertools.chain(multi_cases_exhaustive(k3, SYNTAXES, cover[:3] if quick else cover[:8]),
+    k3 = kinds2
+    cases3 = itertools.chain(multi_cases_exhaustive(k3, SYNTAXES, cover[:3] if quick else cover[:8], all_syntaxes=not quick),
                              multi_cases_random(rng, 6000 if quick else 60000, k3, cover))
     run_parallel_sorted(c3, 'bounded.c03', 'check_multi', cases3, chunk=2000)
     c3.done()
